@@ -263,6 +263,28 @@ Definition avail_nodes (s : st) : list N := filter (fun n => negb (ahas n (s_rmn
 (* ---------- doCheckNamespaces (one namespace, one partition) ---------- *)
 Definition count_in (cur l : list N) : N := len (filter (fun n => mem n cur) l).
 
+(* the deferred function of doCheckNamespaces (a Go panic unwinds through it too) *)
+Definition check_finish (s : st) (full panic : bool) (r : reg) (unst : bool) (w : option N) (ok ready : bool)
+           (atts : list attempt) : st * bool * list attempt :=
+  let unst' := if ok then (if full && ready then false else unst) else true in
+  (upd_flags s r unst' w, panic, atts).
+
+(* planned removal of an unwanted replica when over-replicated (tail of the loop body) *)
+Definition check_planned (s : st) (full : bool) (place_all : placement) (alive_count : N) (need : bool)
+           (r : reg) (i : rinfo) (unst : bool) (w : option N) (ok ready : bool) (atts : list attempt)
+           : st * bool * list attempt :=
+  if (s_replica s <? alive_count) && negb need then
+    let can := (len (s_rmnodes s) =? 0) && all_ready (s_ans s) i in
+    if can then
+      match decide_unwanted place_all i with
+      | Some (Some n) => let '(_, r', _, w3) := remove_from_node (s_replica s) (s_now s) r i n in
+                         check_finish s full false r' unst w ok ready (atts ++ w3)
+      | Some None => check_finish s full false r unst w ok ready atts
+      | None => check_finish s full true r unst w ok ready atts
+      end
+    else check_finish s full false r unst w ok ready atts
+  else check_finish s full false r unst w ok ready atts.
+
 Definition do_check (s : st) (full : bool) (place_all place_avail : placement) : st * bool * list attempt :=
   let replica := s_replica s in
   let env := s_ans s in
@@ -275,48 +297,30 @@ Definition do_check (s : st) (full : bool) (place_all place_avail : placement) :
   let lost := negb (forallb (fun n => mem n cur) (isr info)) in
   let need := short || lost in
   let check_ok := negb need in
-  (* deferred function of doCheckNamespaces *)
-  (* a Go panic unwinds through the same deferred function *)
-  let finish_p (panic : bool) (r : reg) (unst : bool) (w : option N) (ok ready : bool) (atts : list attempt) :=
-    let unst' := if ok then (if full && ready then false else unst) else true in
-    (upd_flags s r unst' w, panic, atts) in
-  let finish := finish_p false in
-  if len cur <=? s_stable s / 2 then finish r0 (s_unstable s) (s_waiting s) false true []
+  if len cur <=? s_stable s / 2 then check_finish s full false r0 (s_unstable s) (s_waiting s) false true []
   else
     (* removings first *)
     let '(_, r1, info1, w1) :=
       if 0 <? len (removings info) then remove_from_removings replica env now r0 info
       else (CNone, r0, info, []) in
-    (* planned removal of an unwanted replica when over-replicated *)
-    let planned (r : reg) (i : rinfo) (unst : bool) (w : option N) (ok ready : bool) (atts : list attempt) :=
-      if (replica <? alive_count) && negb need then
-        let can := (len (s_rmnodes s) =? 0) && all_ready env i in
-        if can then
-          match decide_unwanted place_all i with
-          | Some (Some n) => let '(_, r', _, w3) := remove_from_node replica now r i n in
-                             finish r' unst w ok ready (atts ++ w3)
-          | Some None => finish r unst w ok ready atts
-          | None => finish_p true r unst w ok ready atts
-          end
-        else finish r unst w ok ready atts
-      else finish r unst w ok ready atts in
     if need && s_auto s then
       match s_waiting s with
-      | None => finish r1 (s_unstable s) (Some now) check_ok true w1
+      | None => check_finish s full false r1 (s_unstable s) (Some now) check_ok true w1
       | Some ft =>
           if ft <? now - wait_migrate then
             let '(c, r2, info2, w2) :=
               handle_migrate replica env now r1 (s_nepoch s) info1 (avail_nodes s) (s_nepoch s) place_avail in
             match c with
-            | COk => planned r2 info2 true None check_ok true (w1 ++ w2)
-            | CPanic => finish_p true r2 (s_unstable s) (Some ft) check_ok true (w1 ++ w2)
-            | _ => finish r2 true (Some ft) check_ok true (w1 ++ w2)
+            | COk => check_planned s full place_all alive_count need r2 info2 true None check_ok true (w1 ++ w2)
+            | CPanic => check_finish s full true r2 (s_unstable s) (Some ft) check_ok true (w1 ++ w2)
+            | _ => check_finish s full false r2 true (Some ft) check_ok true (w1 ++ w2)
             end
-          else planned r1 info1 (s_unstable s) (Some ft) check_ok true w1
+          else check_planned s full place_all alive_count need r1 info1 (s_unstable s) (Some ft) check_ok true w1
       end
     else
-      if all_ready env info1 then planned r1 info1 (s_unstable s) None check_ok true w1
-      else finish r1 (s_unstable s) None check_ok false w1.
+      if all_ready env info1 then
+        check_planned s full place_all alive_count need r1 info1 (s_unstable s) None check_ok true w1
+      else check_finish s full false r1 (s_unstable s) None check_ok false w1.
 
 (* ---------- handleDataNodes: one watch event (isMaster = true) ---------- *)
 Definition nodes_event (s : st) (l : list N) : st * bool :=
@@ -378,30 +382,35 @@ Definition check_pending (env : answers) (info : rinfo) (rm : list (N * rmstate)
 Record pacc := mkPacc { p_rm : list (N * rmstate); p_reg : reg; p_any : bool; p_chg : bool; p_atts : list attempt;
                         p_panic : bool }.
 
+Definition set_pending (nid : N) (a : pacc) : pacc :=
+  if is_pending nid (p_rm a) then a
+  else mkPacc (rm_set nid RPending (p_rm a)) (p_reg a) (p_any a) true (p_atts a) false.
+
+(* the loop body over the (single) partition for one node that is being removed from the cluster *)
+Definition proc_act (replica : N) (env : answers) (now : N) (place : placement)
+           (info0 : rinfo) (a : pacc) (nid : N) : pacc :=
+  if ahas nid (removings info0) then
+    set_pending nid (mkPacc (p_rm a) (p_reg a) true (p_chg a) (p_atts a) false)
+  else if negb (mem nid (raft_nodes info0)) then a
+  else if p_any a then set_pending nid a
+  else
+    let a := set_pending nid (mkPacc (p_rm a) (p_reg a) true (p_chg a) (p_atts a) false) in
+    let '(res, r1, w1) :=
+      if len (isr info0) <=? replica then add_and_wait env (p_reg a) place else (AWOk, p_reg a, []) in
+    match res with
+    | AWPanic => mkPacc (p_rm a) r1 true (p_chg a) (p_atts a ++ w1) true
+    | AWErr => mkPacc (p_rm a) r1 true (p_chg a) (p_atts a ++ w1) false
+    | AWOk =>
+      let ns := if len (isr info0) <=? replica then r_info r1 else info0 in
+      if negb (all_ready env ns) then mkPacc (p_rm a) r1 true (p_chg a) (p_atts a ++ w1) false
+      else let '(_, r2, _, w2) := remove_from_node replica now r1 ns nid in
+           mkPacc (p_rm a) r2 true (p_chg a) (p_atts a ++ w1 ++ w2) false
+    end.
+
 Definition proc_node (replica : N) (env : answers) (now : N) (dn : list N) (place : placement)
            (info0 : rinfo) (a : pacc) (nid : N) : pacc :=
   if p_panic a then a else
-  let set_pending (a : pacc) :=
-    if is_pending nid (p_rm a) then a
-    else mkPacc (rm_set nid RPending (p_rm a)) (p_reg a) (p_any a) true (p_atts a) false in
-  let a1 :=
-    if ahas nid (removings info0) then
-      set_pending (mkPacc (p_rm a) (p_reg a) true (p_chg a) (p_atts a) false)
-    else if negb (mem nid (raft_nodes info0)) then a
-    else if p_any a then set_pending a
-    else
-      let a := set_pending (mkPacc (p_rm a) (p_reg a) true (p_chg a) (p_atts a) false) in
-      let '(res, r1, w1) :=
-        if len (isr info0) <=? replica then add_and_wait env (p_reg a) place else (AWOk, p_reg a, []) in
-      match res with
-      | AWPanic => mkPacc (p_rm a) r1 true (p_chg a) (p_atts a ++ w1) true
-      | AWErr => mkPacc (p_rm a) r1 true (p_chg a) (p_atts a ++ w1) false
-      | AWOk =>
-        let ns := if len (isr info0) <=? replica then r_info r1 else info0 in
-        if negb (all_ready env ns) then mkPacc (p_rm a) r1 true (p_chg a) (p_atts a ++ w1) false
-        else let '(_, r2, _, w2) := remove_from_node replica now r1 ns nid in
-             mkPacc (p_rm a) r2 true (p_chg a) (p_atts a ++ w1 ++ w2) false
-      end in
+  let a1 := proc_act replica env now place info0 a nid in
   if p_any a1 then a1
   else
     let rm := p_rm a1 in
@@ -460,6 +469,28 @@ Fixpoint swap_loop (leader : N) (orig : list N) (idx : nat) (ns : rinfo) (r : re
       else swap_loop leader rest (S idx) ns r moved atts
   end.
 
+(* the tail of the loop body: wait for a marked replica, else move the leader to the front *)
+Definition bal_leader (s : st) (expected move_nodes : list N) (ns : rinfo) (r : reg) (moved : bool)
+           (atts : list attempt) : st * bres * list attempt :=
+  if 0 <? len (removings ns) then (upd_reg s r, BRet moved false, atts)
+  else match expected with
+  | [] => (upd_reg s r, BPanic, atts)                 (* partitionNodes[pid][0] on an empty slice *)
+  | leader :: _ =>
+      if ahas leader (removings ns) then
+        (upd_reg s r, BRet moved (negb ((0 <? len move_nodes) || moved)), atts)
+      else
+        if (len move_nodes =? 0) && (s_replica s <=? len (isr ns)) &&
+           negb (match raft_nodes ns with x :: _ => x =? leader | [] => false end) then
+          match raft_nodes ns with
+          | [] => (upd_reg s r, BPanic, atts)         (* RaftNodes[0] on an empty slice *)
+          | _ =>
+            let '(failed, _, r', moved', atts') := swap_loop leader (raft_nodes ns) 0 ns r moved atts in
+            if failed then (upd_reg s r', BRet moved' false, atts')
+            else (upd_reg s r', BRet moved' (negb ((0 <? len move_nodes) || moved')), atts')
+          end
+        else (upd_reg s r, BRet moved (negb ((0 <? len move_nodes) || moved)), atts)
+  end.
+
 Definition rebalance (s : st) (place : placement) : st * bres * list attempt :=
   let replica := s_replica s in
   let env := s_ans s in
@@ -474,27 +505,8 @@ Definition rebalance (s : st) (place : placement) : st * bres * list attempt :=
   | PPanic => (s, BPanic, [])
   | PList expected =>
       let move_nodes := filter (fun n => negb (mem n expected)) (isr info0) in
-      let leader_part (ns : rinfo) (r : reg) (moved : bool) (atts : list attempt) :=
-        if 0 <? len (removings ns) then (upd_reg s r, BRet moved false, atts)
-        else match expected with
-        | [] => (upd_reg s r, BPanic, atts)
-        | leader :: _ =>
-            if ahas leader (removings ns) then
-              (upd_reg s r, BRet moved (negb ((0 <? len move_nodes) || moved)), atts)
-            else
-              if (len move_nodes =? 0) && (replica <=? len (isr ns)) &&
-                 negb (match raft_nodes ns with x :: _ => x =? leader | [] => false end) then
-                match raft_nodes ns with
-                | [] => (upd_reg s r, BPanic, atts)       (* RaftNodes[0] on an empty slice *)
-                | _ =>
-                  let '(failed, _, r', moved', atts') := swap_loop leader (raft_nodes ns) 0 ns r moved atts in
-                  if failed then (upd_reg s r', BRet moved' false, atts')
-                  else (upd_reg s r', BRet moved' (negb ((0 <? len move_nodes) || moved')), atts')
-                end
-              else (upd_reg s r, BRet moved (negb ((0 <? len move_nodes) || moved)), atts)
-        end in
       match move_nodes with
-      | [] => leader_part info0 r0 false []
+      | [] => bal_leader s expected move_nodes info0 r0 false []
       | nid :: _ =>
           let '(res, r1, w1) :=
             if len (isr info0) <=? replica then add_and_wait env r0 place else (AWOk, r0, []) in
@@ -505,7 +517,7 @@ Definition rebalance (s : st) (place : placement) : st * bres * list attempt :=
             let ns := if len (isr info0) <=? replica then r_info r1 else info0 in
             let '(c, r2, ns2, w2) := remove_from_node replica (s_now s) r1 ns nid in
             match c with
-            | COk => leader_part ns2 r2 true (w1 ++ w2)
+            | COk => bal_leader s expected move_nodes ns2 r2 true (w1 ++ w2)
             | _ => (upd_reg s r2, BRet true false, w1 ++ w2)
             end
           end
